@@ -36,11 +36,12 @@ CLAIMED.update({
               STD_NOTE + "Proved exact (iff, over rational points) for every kind incl. polygon and multipolygon (closed rings, holes within the shell's "
               "bounding box; polygon point set = ring points and points of non-zero winding number; the corner winding test is justified by the "
               "formalised constancy of the winding number on boxes that miss the ring). Reading 'non-zero winding number' as 'inside' is C02. "
-              "One known finding (D35: float32 storage, long edges computed in single precision) is listed in known_findings.json.",
+              "One known finding (D35: float32 storage, long edges computed in single precision; D44 is its point-versus-shape face under C02) is listed in known_findings.json.",
               "Lean 4 proof about the kernel model + model/implementation/oracle correspondence", "I.2 C01, II §3 C01"),
     "C02": _c("Lean model of point-vs-shape intersects (Geom.point*, the winding loop as coded) with the theorems of Props/C02.lean; "
               "correspondence over every shape of the grid families x every grid point (rays through vertices, points on edges), a missing and an "
-              "all-NaN point, array / inds / scalar / GeoSeries forms, plus seeded random shapes; on-ring points compared for form agreement only.",
+              "all-NaN point, array / inds / scalar / GeoSeries forms, plus seeded random shapes and the same families scaled by powers of two; on-ring points "
+              "compared for form agreement only. One known finding (D44: float32 points against a float32 line, cross product in single precision) is listed in known_findings.json.",
               STD_NOTE + "Proved exact (iff) for point, multipoint, line, multiline; for polygons: the edge rule (closed form and geometric reading), "
               "antisymmetry under reversal, zero outside the bounding box, constancy along segments and on boxes that miss the ring, jump by the "
               "edge's direction across one edge, +-1 strictly inside / 0 strictly outside a triangle, 0 everywhere for a degenerate triangle, the fan "
